@@ -230,6 +230,14 @@ def oracle_variant(case, rec):
             out = emd.sift.sift_second_layer(ia.copy())
             imf, extra = np.asarray(out), ia
             k = None
+            # a single first-layer envelope handed over as a plain vector: one amplitude series, so at most one row of
+            # second-layer IMFs and (default cap = number of first-layer IMFs) at most one component
+            try:
+                one = np.asarray(emd.sift.sift_second_layer(ia[:, 0].copy()))
+            except emd.support.EMDSiftCovergeError:
+                one = None
+            if one is not None and (one.ndim != 3 or one.shape[0] != x.size or one.shape[1] != 1 or one.shape[2] > 1):
+                raise Violation('C03/sift_second_layer/vector-input/more-components-than-the-default-cap', 'got %r for a vector of %d samples' % (one.shape, x.size))
             if ia.shape[1] >= 2:
                 # one caller-owned options dictionary (no cap in it) serving a wide and then a narrower amplitude set: the
                 # default cap is the width of the set at hand, whatever was decomposed before through the same dictionary
